@@ -101,6 +101,16 @@ pub trait Prop: Sync {
     fn exhaustive(&self) -> bool {
         false
     }
+    /// a run that does not replay to the same transcript in a second OS process is a violation of the
+    /// property itself (C02) rather than a harness error
+    fn nondeterminism_is_violation(&self) -> bool {
+        false
+    }
+    /// checks that run once per batch in the orchestrating process (e.g. pinned golden digests);
+    /// returns (replayable case, violation)
+    fn batch_prelude(&self) -> Option<(Value, Violation)> {
+        None
+    }
 }
 
 pub fn sha_hex(s: &str) -> String {
@@ -369,6 +379,16 @@ pub fn check_main(p: &dyn Prop, tier: Tier) -> i32 {
             }
         }
     }
+    let mut prelude_violation: Option<(Value, Violation)> = p.batch_prelude();
+    if !nondeterministic.is_empty() && p.nondeterminism_is_violation() && prelude_violation.is_none() {
+        let i = nondeterministic[0];
+        let seed = run_seed(root, p.id(), i);
+        prelude_violation = Some((
+            p.generate(seed, tier),
+            Violation::new("cross-process-divergence", json!({"run": i, "seed": seed, "note": "the same call history produced a different transcript in a second OS process"})),
+        ));
+        nondeterministic.clear();
+    }
     if !nondeterministic.is_empty() {
         eprintln!("HARNESS-ERROR: runs {:?} did not replay to the same transcript (nondeterminism in the simulator)", nondeterministic);
         write_evidence(p, tier, root, &lines, &stats, &digests, &nontrivial_digests, &states, sim_ms, &samples, 0, t0, json!({"harness_error": "nondeterministic replay"}));
@@ -399,7 +419,24 @@ pub fn check_main(p: &dyn Prop, tier: Tier) -> i32 {
     }
     let mut exit = 0;
     let mut extra = json!({});
-    if let Some(first) = new_violations.first() {
+    if let Some((case, viol)) = &prelude_violation {
+        if let Some(k) = match_known(&known, p.id(), viol) {
+            println!("KNOWN-FINDING: property={} {}", p.id(), k.what);
+        } else {
+            let path = format!("{}/replays/{}-prelude.json", verif_root(), p.id());
+            let _ = std::fs::create_dir_all(format!("{}/replays", verif_root()));
+            let replay = json!({"property": p.id(), "seed": root, "tier": tier.name(), "violation": viol.to_value(), "case": case});
+            std::fs::write(&path, serde_json::to_string_pretty(&replay).unwrap()).expect("write replay");
+            println!("violation class: {}", viol.class);
+            println!("violation detail: {}", viol.detail);
+            println!("VIOLATION property={} replay={}", p.id(), path);
+            extra = json!({"first_violation": viol.to_value()});
+            exit = 1;
+        }
+    }
+    if exit == 1 {
+        // reported above
+    } else if let Some(first) = new_violations.first() {
         let viol = Violation::from_value(&first["violation"]).unwrap();
         let seed = first["seed"].as_u64().unwrap_or(0);
         let case = if first["case"].is_null() { p.generate(seed, tier) } else { first["case"].clone() };
@@ -425,7 +462,8 @@ pub fn check_main(p: &dyn Prop, tier: Tier) -> i32 {
         extra = json!({"first_violation": final_viol.to_value(), "replay_reproduced": reproduced});
         exit = 1;
     }
-    write_evidence(p, tier, root, &lines, &stats, &digests, &nontrivial_digests, &states, sim_ms, &samples, new_violations.len() as u64, t0, json!({"known_findings_hit": known_hit, "determinism_rechecked": recheck.len().min(12), "total_runs": total, "extra": extra}));
+    let nviol = new_violations.len() as u64 + if exit == 1 && new_violations.is_empty() { 1 } else { 0 };
+    write_evidence(p, tier, root, &lines, &stats, &digests, &nontrivial_digests, &states, sim_ms, &samples, nviol, t0, json!({"known_findings_hit": known_hit, "determinism_rechecked": recheck.len().min(12), "total_runs": total, "extra": extra}));
     println!(
         "[{}] runs={} distinct={} nontrivial_distinct={} violations={} known={} wall={:.1}s",
         p.id(),
